@@ -687,6 +687,10 @@ fn enabled_c09(w: &RouterWorld, cfg: &Cfg, v: &mut Vec<(Act, u8)>) {
                     v.push((Act::Bad { c: s, kind: 4 }, 0));
                 }
             }
+            if !w.manual && cfg.variant == 0 {
+                // the wrong kind of acknowledgement for the oldest forward
+                v.push((Act::Bad { c: s, kind: 20 }, 0));
+            }
         }
         if !cl.rels.is_empty() {
             v.push((Act::Comp { c: s }, 0));
